@@ -339,6 +339,31 @@ fn check(case: &Case, obs: &mut Obs) -> PropResult {
 			}
 		}
 	}
+	if case.classes.len() % 4 == 1 {
+		// a class with 300 methods on either side (more than 512 list entries together): the same methods, two of them swapped
+		// on the server, five more only on the server, three only on the client
+		let name = "net/minecraft/Wide.class".to_string();
+		if !infos.contains_key(&name) {
+			let method = |n: String| CMember { access: 1, name: n, desc: "()V".into(), attrs: vec![] };
+			let mk = |methods: Vec<CMember>| CClass { minor: 0, major: 52, access: 0x0421, name: "net/minecraft/Wide".into(), super_class: Some("java/lang/Object".into()), interfaces: vec![], fields: vec![], methods: methods.into_iter().map(|mut m| { m.access = 0x0401; m }).collect(), attrs: vec![] };
+			let mut cm: Vec<CMember> = (0..300).map(|i| method(format!("w{i}"))).collect();
+			let mut sm = cm.clone();
+			sm.swap(100, 200);
+			for (k, at) in [10usize, 150, 151, 250, 299].iter().enumerate() {
+				sm.insert(*at + k, method(format!("serverOnly{k}")));
+			}
+			for (k, at) in [0usize, 120, 299].iter().enumerate() {
+				cm.insert(*at + k, method(format!("clientOnly{k}")));
+			}
+			let cb = encode(&mk(cm), &Choices::default()).map_err(|e| format!("harness: {e:?}"))?.bytes;
+			let sb = encode(&mk(sm), &Choices::default()).map_err(|e| format!("harness: {e:?}"))?.bytes;
+			let read = |b: &Vec<u8>| -> Result<CClass, String> { project(&duke::read_class(&mut std::io::Cursor::new(b)).map_err(|e| format!("duke::read_class rejected a well-formed class file: {e:#}"))?).map(|m| m.canon()).map_err(|e| format!("harness: {e}")) };
+			client.push((name.clone(), Entry::Class(cb.clone())));
+			server.push((name.clone(), Entry::Class(sb.clone())));
+			infos.insert(name, Info { presence: Presence::Different, c: Some((read(&cb)?, cb)), s: Some((read(&sb)?, sb)) });
+			obs.label("differing_class_with_more_than_512_list_entries");
+		}
+	}
 	if case.zip && case.classes.len() % 4 == 0 {
 		// a class of more than 1 MiB (an unknown attribute of 1.1 MB), the same on both sides: passed through byte-identical
 		let name = "net/minecraft/MoreThanOneMiB.class".to_string();
